@@ -557,3 +557,45 @@ addendum('C12', 'R5 depth-limit convention: constants reaching a walker\'s '
 addendum('C14', 'R9: registry dicts are read-only for their users when a '
          'registry is a shared object; R11 = per-mutator containment '
          '(C04.R1).')
+
+
+# ---- round 7 (DESIGN.md 8.4, "Round 7")
+addendum('C01', 'R10: memoised functions (functools.cache / lru_cache) on '
+         'the candidate path depend only on their cache key (no pid / '
+         'thread id, clock, options assigned after parsing, globals '
+         'rewritten during the run).')
+addendum('C02', 'R12: in the hierarchical result loop a result is dropped '
+         'only when the verdict delivered by the worker is false or the '
+         'flag is set (the verdict variable is not overwritten before it is '
+         'tested).')
+addendum('C03', 'R10: the constants ArithmeticSimplifyConstant reads are '
+         'non-negative (sign analysis of get_arith_const, lexeme patterns '
+         'without sign) and integer proposals are floor divisions by a '
+         'constant >= 2.')
+addendum('C04', 'R15: results of re.match/search/fullmatch (also on '
+         'compiled patterns) and shutil.which are not dereferenced in '
+         'main-process code before a None test.')
+addendum('C05', 'R3: TaskGenerator.update re-pickles on every path on which '
+         'a pickled base is in use; R11 = the writer replaces the output '
+         'file on every normal path (publication part of C06.R1).')
+addendum('C07', 'R4 also follows slices, tests and per-piece loops over the '
+         'rendered text (data-dependent treatment of rendered text is a '
+         'transformation).')
+addendum('C08', 'R5 covers pathlib read_text(); R9: every character '
+         'constant the scanner compares with has a lexical role in SMT-LIB '
+         '2.6 (no backslash escapes).')
+addendum('C09', 'R7: stdout and stderr of the command are pipes on every '
+         'spawn path, whatever the options say.')
+addendum('C10', 'R9: memoised functions of the checker depend only on '
+         'their cache key (the automatic time limit is assigned after the '
+         'first golden run).')
+addendum('C12', 'R8: memoised methods of the node classes: a structural '
+         'cache key with a value that contains identities.')
+addendum('C14', 'R7: "no evidence" means every top-level node was shown to '
+         'is_relevant and declined (also per group); R9: a pass that has '
+         'mutators is never skipped without a sweep.')
+addendum('C16', 'R4: constants placed into a container value are those of '
+         'the parameter its constructor takes ((Set E): 1, (Array I E): 2); '
+         'R10 memoised functions of smtlib.')
+addendum('C18', 'R2: objects accumulating measured run times are '
+         'write-only for the strategies.')
